@@ -524,9 +524,14 @@ def run(ctx):
     jobs = [("c16_elim", [F.zlist(elim_res)], None, chk_elim), ("c16_quad", quad_cases, quad_src, chk_quad),
             ("c16_geom", geom_cases, geom_src, chk_geom), ("c16_row", row_cases, row_src, chk_row), ("c16_sel", sel_cases, sel_src, chk_sel)]
     from concurrent.futures import ThreadPoolExecutor
+    import os, shutil
+    sfx = "_p%d" % os.getpid()      # private evaluation directories: concurrent runs of this check do not clear each other's files
     with ThreadPoolExecutor(max_workers=len(jobs)) as ex:
-        results = list(ex.map(lambda j: ctx.coq_eval(j[0], IMPORTS, j[1], j[3], shard={"c16_geom": 80 if quick else 200, "c16_sel": 8}.get(j[0], 1000)), jobs))
+        results = list(ex.map(lambda j: ctx.coq_eval(j[0] + sfx, IMPORTS, j[1], j[3], shard={"c16_geom": 80 if quick else 200, "c16_sel": 8}.get(j[0], 1000)), jobs))
     tm["coq_eval"] = round(time.time() - t0, 1)
+    if not ctx.broken:
+        for j in jobs:
+            shutil.rmtree(os.path.join(ctx.scratch, "eval_" + j[0] + sfx), ignore_errors=True)
     nfail = 0
     for (name, cases, src, chk), fails in zip(jobs, results):
         nfail += len(fails)
